@@ -178,56 +178,56 @@ theorem fromJacobian_ops (p : Point) (v : Jac) :
 /-! ### layout, guards, hazards, well-formedness of the regenerated data -/
 
 theorem isOnCurve_facts :
-    G.isOnCurve.inputs = ["p.x", "p.y", "fe7", "feZero"]
+    G.isOnCurve.inputs = ["p0.f0", "p0.f1", "fe7", "feZero"]
     ∧ G.isOnCurve.outputs = ["return"] ∧ G.isOnCurve.outIds = [7]
     ∧ G.isOnCurve.guards = [] ∧ G.isOnCurve.hazards = [] ∧ G.isOnCurve.wf = true := by
   ptops_decide "C15PtOps.isOnCurve_facts"
 
 theorem jzero_facts :
-    G.jzero.inputs = ["p.x", "p.y", "p.z"] ∧ G.jzero.outIds = [0, 1, 2]
+    G.jzero.inputs = ["r.f0", "r.f1", "r.f2"] ∧ G.jzero.outIds = [0, 1, 2]
     ∧ G.jzero.guards = [] ∧ G.jzero.hazards = [] ∧ G.jzero.wf = true := by
   ptops_decide "C15PtOps.jzero_facts"
 
 theorem jset_facts :
-    G.jset.inputs = ["p.x", "p.y", "p.z", "v.x", "v.y", "v.z"] ∧ G.jset.outIds = [0, 1, 2]
+    G.jset.inputs = ["r.f0", "r.f1", "r.f2", "p0.f0", "p0.f1", "p0.f2"] ∧ G.jset.outIds = [0, 1, 2]
     ∧ G.jset.guards = [] ∧ G.jset.hazards = [] ∧ G.jset.wf = true := by
   ptops_decide "C15PtOps.jset_facts"
 
 theorem jselect_facts :
-    G.jselect.inputs = ["p.x", "p.y", "p.z", "a.x", "a.y", "a.z", "b.x", "b.y", "b.z", "cond"]
+    G.jselect.inputs = ["r.f0", "r.f1", "r.f2", "p0.f0", "p0.f1", "p0.f2", "p1.f0", "p1.f1", "p1.f2", "p2"]
     ∧ G.jselect.outIds = [0, 1, 2] ∧ G.jselect.intVars = [9]
     ∧ G.jselect.guards = [] ∧ G.jselect.hazards = [] ∧ G.jselect.wf = true := by
   ptops_decide "C15PtOps.jselect_facts"
 
 theorem fromAffine_facts :
-    G.fromAffine.inputs = ["p.x", "p.y", "p.z", "v.x", "v.y", "feZero", "feOne"]
+    G.fromAffine.inputs = ["r.f0", "r.f1", "r.f2", "p0.f0", "p0.f1", "feZero", "feOne"]
     ∧ G.fromAffine.outIds = [0, 1, 2]
     ∧ G.fromAffine.guards = [] ∧ G.fromAffine.hazards = [] ∧ G.fromAffine.wf = true := by
   ptops_decide "C15PtOps.fromAffine_facts"
 
 theorem jequal_facts :
-    G.jequal.inputs = ["p.x", "p.y", "p.z", "v.x", "v.y", "v.z"]
+    G.jequal.inputs = ["r.f0", "r.f1", "r.f2", "p0.f0", "p0.f1", "p0.f2"]
     ∧ G.jequal.outputs = ["return"] ∧ G.jequal.outIds = [16]
     ∧ G.jequal.guards = [] ∧ G.jequal.hazards = [] ∧ G.jequal.wf = true := by
   ptops_decide "C15PtOps.jequal_facts"
 
 theorem jdouble_facts :
-    G.jdouble.inputs = ["p.x", "p.y", "p.z", "v.x", "v.y", "v.z"] ∧ G.jdouble.outIds = [0, 1, 2]
+    G.jdouble.inputs = ["r.f0", "r.f1", "r.f2", "p0.f0", "p0.f1", "p0.f2"] ∧ G.jdouble.outIds = [0, 1, 2]
     ∧ G.jdouble.guards = [] ∧ G.jdouble.hazards = [] ∧ G.jdouble.wf = true := by
   ptops_decide "C15PtOps.jdouble_facts"
 
 theorem jadd_facts :
-    G.jadd.inputs = ["p.x", "p.y", "p.z", "a.x", "a.y", "a.z", "b.x", "b.y", "b.z"]
+    G.jadd.inputs = ["r.f0", "r.f1", "r.f2", "p0.f0", "p0.f1", "p0.f2", "p1.f0", "p1.f1", "p1.f2"]
     ∧ G.jadd.outIds = [0, 1, 2]
     ∧ G.jadd.guards = [] ∧ G.jadd.hazards = [] ∧ G.jadd.wf = true := by
   ptops_decide "C15PtOps.jadd_facts"
 
 theorem fromJacobian_facts :
-    G.fromJacobianCond.inputs = ["p.x", "p.y", "v.x", "v.y", "v.z", "feZero"]
+    G.fromJacobianCond.inputs = ["r.f0", "r.f1", "p0.f0", "p0.f1", "p0.f2", "feZero"]
     ∧ G.fromJacobianCond.outputs = ["return"] ∧ G.fromJacobianCond.outIds = [6]
-    ∧ G.fromJacobianCond.facts = [("branch", "if v.z.Equal(&feZero) == 1 { …; return }")]
-    ∧ G.fromJacobianThen.inputs = ["p.x", "p.y", "v.x", "v.y", "v.z"] ∧ G.fromJacobianThen.outIds = [0, 1]
-    ∧ G.fromJacobianElse.inputs = ["p.x", "p.y", "v.x", "v.y", "v.z"] ∧ G.fromJacobianElse.outIds = [0, 1]
+    ∧ G.fromJacobianCond.facts = [("branch", "leading if with early return; condition = the [if.cond] sequence")]
+    ∧ G.fromJacobianThen.inputs = ["r.f0", "r.f1", "p0.f0", "p0.f1", "p0.f2"] ∧ G.fromJacobianThen.outIds = [0, 1]
+    ∧ G.fromJacobianElse.inputs = ["r.f0", "r.f1", "p0.f0", "p0.f1", "p0.f2"] ∧ G.fromJacobianElse.outIds = [0, 1]
     ∧ G.fromJacobianCond.hazards = [] ∧ G.fromJacobianThen.hazards = [] ∧ G.fromJacobianElse.hazards = []
     ∧ G.fromJacobianCond.wf = true ∧ G.fromJacobianThen.wf = true ∧ G.fromJacobianElse.wf = true := by
   ptops_decide "C15PtOps.fromJacobian_facts"
